@@ -36,6 +36,10 @@ QUICK_SEVS = list(range(16)) + [16, 31, 32, 36, 47, 48, 63, 64, 72, 79, 80, 81, 
 COMBOS = [0, 0x2000, 0x4000, 0x6000, 0x8000, 0xA000, 0xC000, 0xE000]
 
 
+# SelectionProof.tla: considerPEL (as repaired) meets the documented rules for every severity byte, flag word and option record
+PROOFS = ['SelectionProof']
+
+
 def model_checks(tier):
     if tier == 'quick':
         return [dict(module='mc/MC_Selection', cfg='mc/MC_Selection_quick', must_cover=['Evaluate'])]
